@@ -127,4 +127,4 @@ def examples(tier):
     return [{'family': 'repo', 'pts': pts, 'dx': 0.05, 'dy': 0.05, 'dz': 0.05}]
 
 
-SUBS = [Sub('zmethod', oracle, strategy=cases, budget={'quick': 6400, 'thorough': 96000}, examples=examples)]
+SUBS = [Sub('zmethod', oracle, strategy=cases, budget={'quick': 6400, 'thorough': 96000}, examples=examples, fuzz={'thorough': 20000})]
